@@ -308,6 +308,11 @@ def rule_conv(ctx):
 
 
 def run(ctx):
+    from ..report import SubCtx
+    from . import c09
+    sub = SubCtx(ctx, 'C07.queue', 'the score is a task queue: its order, its latest entry (the tail marker) and its iteration rest on the priority-queue contract decided for C09')
+    c09.rule_inv(sub)
+    c09.rule_key(sub)
     rule_src(ctx)
     rule_tag(ctx)
     rule_nest(ctx)
